@@ -529,7 +529,8 @@ impl ExprTypeChecker<'_, '_> {
             )));
         }
 
-        zip!(1.., args, &siggy.params).map(|(param_num, arg, param)| {
+        // (parameters with a default are instruction padding, which never takes one of the arguments)
+        zip!(1.., args, siggy.params.iter().filter(|param| param.default.is_none())).map(|(param_num, arg, param)| {
             let arg_ty = self.check_expr_as_value(arg, name.span)?;
             if let VarType::Typed(param_ty) = param.ty.value {
                 if arg_ty != param_ty {
